@@ -152,6 +152,9 @@ WORKFLOW_STATE_MACHINE_DATA = {
         events.WORKFLOW_CANCELING_WORKFLOW_DORMANT: statuses.CANCELED,
         events.WORKFLOW_CANCELED_WORKFLOW_DORMANT: statuses.CANCELED,
         events.WORKFLOW_FAILED: statuses.FAILED,
+        events.TASK_REQUESTED: statuses.RUNNING,
+        events.TASK_SCHEDULED: statuses.RUNNING,
+        events.TASK_DELAYED: statuses.RUNNING,
         events.TASK_RUNNING: statuses.RUNNING,
         events.TASK_RESUMING: statuses.RUNNING,
         events.TASK_FAILED_WORKFLOW_ACTIVE: statuses.FAILED,
